@@ -45,6 +45,10 @@ type GenOpts struct {
 	// objects are reached twice, with textually equal selections that differ in
 	// what their directives exclude. Doc.ClonedDirs counts them.
 	PCloneDirs float64
+	// RootFields, when set, restricts the query root to these fields.
+	RootFields []string
+	// Mutation generates a mutation operation (root type Mutation).
+	Mutation bool
 	// PForeign adds, inside Node and Leaf selection sets, spreads of fragments
 	// typed on the other of the two object types that select only fields both
 	// types have (id, color, __typename). One named fragment is then shared by
@@ -80,12 +84,19 @@ func Generate(r *rand.Rand, sd *SchemaDesc, w *World, o GenOpts) *Doc {
 		g.doc.OpName = "Op"
 	}
 	depth := 2 + r.Intn(o.MaxDepth-1)
-	g.doc.Root = g.set("Query", depth)
+	if o.Mutation {
+		g.doc.Mutation = true
+		g.doc.Root = g.set("Mutation", depth)
+	} else {
+		g.doc.Root = g.set("Query", depth)
+	}
 	if g.doc.OpName == "" && len(g.doc.Vars) > 0 {
 		g.doc.OpName = "Q"
 	}
 	return g.doc
 }
+
+func isRoot(typ string) bool { return typ == "Query" || typ == "Mutation" }
 
 func (g *generator) p(x float64) bool { return x > 0 && g.r.Float64() < x }
 
@@ -232,12 +243,15 @@ func (g *generator) leafNames(t *TypeDesc) []string {
 }
 
 func (g *generator) field(t *TypeDesc, depth int, forceLeaf bool) *Field {
-	if g.r.Intn(14) == 0 && (t.Name != "Query" || g.o.RootTypename) {
+	if g.r.Intn(14) == 0 && (!isRoot(t.Name) || g.o.RootTypename) {
 		return &Field{Name: "__typename", Alias: g.alias("__typename", nil)}
 	}
 	var fd *FieldDesc
 	for tries := 0; ; tries++ {
 		fd = t.Fields[t.Order[g.r.Intn(len(t.Order))]]
+		if t.Name == "Query" && len(g.o.RootFields) > 0 {
+			fd = t.Fields[g.o.RootFields[g.r.Intn(len(g.o.RootFields))]]
+		}
 		if g.o.NoUnions && fd.Ret.Base().Kind == KUnion {
 			continue
 		}
@@ -436,11 +450,20 @@ func (g *generator) set(typ string, depth int) *SelSet {
 		return s
 	}
 	n := 1 + g.r.Intn(g.o.MaxWidth)
+	if typ == "Mutation" {
+		n = 1 // the gateway supports one mutation step per operation
+	}
 	var fields []*Field
 	for i := 0; i < n; i++ {
 		switch {
 		case (typ == "Node" || typ == "Leaf") && g.p(g.o.PForeign):
 			s.Items = append(s.Items, SelItem{Frag: g.commonFrag(typ)})
+		case typ == "Mutation":
+			// mutation fields are selected directly (they are all object-valued)
+			f := g.field(t, depth, false)
+			f.Dirs = g.dirs()
+			fields = append(fields, f)
+			s.Items = append(s.Items, SelItem{Field: f})
 		case depth > 1 && g.p(g.o.PInline):
 			fr := &Frag{On: typ, Set: g.set(typ, depth-1), Dirs: g.dirs()}
 			s.Items = append(s.Items, SelItem{Frag: fr})
@@ -464,7 +487,7 @@ func (g *generator) set(typ string, depth int) *SelSet {
 				dup.Sub = g.set(fd.Ret.Base().Name, depth-1)
 			}
 			s.Items = append(s.Items, SelItem{Field: dup})
-		case depth > 1 && len(fields) > 0 && typ != "Query" && g.p(g.o.PCloneDirs):
+		case depth > 1 && len(fields) > 0 && !isRoot(typ) && g.p(g.o.PCloneDirs):
 			var prev *Field
 			for tries := 0; tries < 6 && prev == nil; tries++ {
 				if c := fields[g.r.Intn(len(fields))]; c.Sub != nil {
@@ -483,7 +506,7 @@ func (g *generator) set(typ string, depth int) *SelSet {
 			f.Dirs = g.dirs()
 			fields = append(fields, f)
 			s.Items = append(s.Items, SelItem{Field: f})
-			if typ != "Query" && f.Name != "__typename" && g.p(g.o.PConflictExcluded) {
+			if !isRoot(typ) && f.Name != "__typename" && g.p(g.o.PConflictExcluded) {
 				if tw := g.conflictTwin(t, f, depth); tw != nil {
 					if g.r.Intn(2) == 0 {
 						s.Items = append(s.Items, SelItem{Field: tw})
